@@ -22,7 +22,7 @@ Chunks(s, cuts, from) ==
 Build(s, cuts, solo, outer, lead) ==
   LET ch == Chunks(s, cuts, 1)
       items == [i \in 1..Len(ch) |-> IF i \in solo THEN Group(<<Ics(ch[i])>>) ELSE Ics(ch[i])]
-      withlead == IF lead THEN <<Ics(<<>>)>> \o items ELSE items
+      withlead == IF lead THEN <<Ics(<<>>)>> \o items \o <<Ics(<<>>)>> ELSE items     \* empty groups in front and behind
   IN IF outer THEN <<Group(withlead)>> ELSE withlead
 MCInit ==
   \E s \in Lists : \E cuts \in SUBSET (1..(Len(s) - 1)) : \E solo \in SUBSET (1..(Cardinality(cuts) + 1)) :
@@ -34,11 +34,13 @@ MCSpec == MCInit /\ [][Next]_vars
 RecoverChains == { <<Ics(<<"R">>)>>, <<Ics(<<"A">>), Ics(<<"R">>)>>, <<Ics(<<"R">>), Ics(<<"A">>)>>,
                    <<Ics(<<"A">>), Ics(<<"R">>), Ics(<<"B">>)>>, <<Ics(<<"A", "B">>), Ics(<<"R">>)>>,
                    <<Ics(<<"R">>), Ics(<<"A", "B">>)>>, <<Group(<<Ics(<<"A">>), Ics(<<"R">>)>>), Ics(<<"B">>)>>,
-                   <<Ics(<<"A">>)>>, <<>> }
+                   <<Ics(<<"A">>)>>, <<>>,
+                   <<Ics(<<"R">>), Ics(<<>>)>>, <<Ics(<<>>), Ics(<<"R">>)>>, <<Ics(<<"R">>), Group(<<Ics(<<>>)>>), Ics(<<"A">>)>>,
+                   <<Ics(<<"A">>), Ics(<<"R">>), Ics(<<>>)>> }
 Points(k) == IF k = "unary" THEN {0} ELSE IF k = "client" THEN {0, 1} ELSE {0, 1, 2}
 RecInit ==
   \E o \in RecoverChains, k \in {"unary", "client", "server", "bidi"}, p \in {"connect", "grpc", "grpcweb"},
-     v \in {"none", "nil", "error", "string", "struct", "abort"} : \E at \in Points(k) :
+     v \in {"none", "nil", "error", "string", "struct", "abort", "wrapabort"} : \E at \in Points(k) :
     InitWith([opts |-> o, side |-> "handler", shape |-> IF k = "unary" THEN "unary" ELSE "stream", kind |-> k,
               proto |-> p, panic |-> [value |-> v, at |-> at]])
 RecSpec == RecInit /\ [][Next]_vars
